@@ -133,9 +133,9 @@ pub fn run(ctx: &Ctx) -> Report {
         "cache buffers are 8-byte aligned (watto aligns by address; every real caller passes an mmap or allocator-aligned buffer)".into(),
         "domain: names (incl. fileName) non-empty, line numbers < 2^32-1".into(),
     ];
-    let n = ctx.cases(500, 20000);
+    let n = ctx.cases(5000, 60_000);
     rep.run_stage("ast", || map_case(&cfg()), n, check_case);
-    let nm = ctx.cases(300, 5000);
+    let nm = ctx.cases(3000, 40_000);
     rep.run_stage("mutant", || mutate::mut_case(&cfg()), nm, check_mutant);
     let corpus = corpus_cases(ctx);
     rep.run_enum("corpus", &corpus, check_corpus);
